@@ -104,12 +104,15 @@ __CPROVER_ensures(nv_fwd_calls == (int64_t)self->m_generators.size && nv_all_bad
 __CPROVER_ensures((0 <= nv_gg && (uint64_t)nv_gg < self->m_generators.size) ==> nv_all_hit == 1)
 #define NV_CONTRACT_dataset_undrop NV_ALL_CONTRACT(NV_OP_UNDROP)
 #define NV_CONTRACT_dataset_unshuffle NV_ALL_CONTRACT(NV_OP_UNSHUFFLE)
-/* written without clang's __endN (an explicit iterator loop `it != m_generators.end()` has none) */
+/* written without clang's __endN (an explicit iterator loop `it != m_generators.end()` has none) and for a loop variable of
+ * either signedness (range-for / iterator position: int64_t; index loop: size_t): the first conjunct bounds it by a
+ * constant, which makes the conversions to int64_t that follow value-preserving */
+#define NV_POS(it) ((int64_t)(it))
 #define NV_ALL_LOOP(it) \
 __CPROVER_assigns(it, nv_fwd_calls, nv_all_hit, nv_all_badop) \
-__CPROVER_loop_invariant(0 <= it && it <= (int64_t)self->m_generators.size) \
-__CPROVER_loop_invariant(nv_fwd_calls == it && nv_all_badop == 0) \
-__CPROVER_loop_invariant(nv_all_hit == ((0 <= nv_gg && nv_gg < it) ? 1 : 0)) \
-__CPROVER_decreases((int64_t)self->m_generators.size - it)
+__CPROVER_loop_invariant(0 <= (it) && (it) <= NV_MAXF && NV_POS(it) <= (int64_t)self->m_generators.size \
+  && nv_fwd_calls == NV_POS(it) && nv_all_badop == 0 \
+  && nv_all_hit == ((0 <= nv_gg && nv_gg < NV_POS(it)) ? 1 : 0)) \
+__CPROVER_decreases((int64_t)self->m_generators.size - NV_POS(it))
 #define NV_LOOP_dataset_undrop_1 NV_ALL_LOOP(NV_LOOPVAR_dataset_undrop_1)
 #define NV_LOOP_dataset_unshuffle_1 NV_ALL_LOOP(NV_LOOPVAR_dataset_unshuffle_1)
